@@ -143,11 +143,17 @@ func c09Ids(r *Run) {
 		N = 32767
 	}
 	explicit := T.Bool("explicit", 0.35)
+	// mixed: managed sends and sends with caller-chosen ids on ONE handler; the chosen ids lie above N so
+	// that they can never collide with a managed id (ids 1..N on the same handler would)
+	mixed := !explicit && T.Bool("mixed", 0.25)
 	nSenders := 1 + T.Draw("senders", 4)
 	withCloser := T.Bool("closer", 0.15)
 	v := primitive.ProtocolVersionDse2
 	r.Config["N"] = fmt.Sprint(N)
 	r.Config["mode"] = map[bool]string{false: "managed", true: "explicit"}[explicit]
+	if mixed {
+		r.Config["mode"] = "mixed (managed + explicit ids above N)"
+	}
 	r.Config["senders"] = fmt.Sprint(nSenders)
 	r.Config["closer"] = fmt.Sprint(withCloser)
 
@@ -190,6 +196,8 @@ func c09Ids(r *Run) {
 		for j := range plan {
 			if explicit {
 				plan[j] = idIn{Op: "enqX", K: int16(1 + T.Draw("k", N+1))}
+			} else if mixed && T.Bool("mixed.explicit", 0.4) {
+				plan[j] = idIn{Op: "enqX", K: int16(N + 1 + T.Draw("k.high", 3))}
 			} else {
 				plan[j] = idIn{Op: "enqM"}
 			}
@@ -222,6 +230,9 @@ func c09Ids(r *Run) {
 				k = int16(ks[T.Draw("dlv.pick", len(ks))])
 			} else {
 				k = int16(1 + T.Draw("dlv.any", N+1))
+				if mixed {
+					k = int16(1 + T.Draw("dlv.any.mixed", N+3))
+				}
 			}
 			final := !T.Bool("dlv.nonfinal", 0.25)
 			page := pages[k]
@@ -439,6 +450,27 @@ func c09Wire(r *Run) {
 		bigBurst = false
 	}
 	opts := LinkOpts{Capacity: []int{1 << 20, 64, 4096}[T.DrawP("capacity", 3, 0.6)], Latency: ms([]int{0, 1, 20}[T.Draw("latency", 3)]), ChunkReads: T.Bool("chunkReads", 0.5)}
+	// timeout mode: a short read timeout, so that held-back answers arrive AFTER their request has failed;
+	// the id of such a request must stay out of circulation until the late answer has arrived, and be
+	// assignable again afterwards.
+	timeoutMode := !bigBurst && T.Bool("timeouts", 0.25)
+	readTimeout := time.Hour
+	if timeoutMode {
+		readTimeout = ms(300 + T.Draw("timeout.ms", 500))
+		if opts.Capacity < 4096 {
+			opts.Capacity = 4096
+		}
+		if opts.Latency > ms(1) {
+			opts.Latency = ms(1)
+		}
+		if neverAnswer == 0 {
+			neverAnswer = 1
+		}
+	}
+	// mixed mode: some sends carry caller-chosen ids above N (never colliding with a managed id)
+	mixed := !bigBurst && T.Bool("mixed", 0.25)
+	r.Config["timeoutMode"] = fmt.Sprint(timeoutMode)
+	r.Config["mixed"] = fmt.Sprint(mixed)
 	r.Config["version"] = v.String()
 	r.Config["N"] = fmt.Sprint(N)
 	r.Config["senders"] = fmt.Sprint(K)
@@ -452,11 +484,12 @@ func c09Wire(r *Run) {
 	unanswered := map[int16]string{}
 	var wireLog []string
 	accepted, refused := 0, 0
+	timedOut := 0
 	unansweredByPeer := 0
 	done := false
 	var blockedSender string
 	r.Go("main", func() {
-		cc, err := client.VerifNewClientConnection(a, ctx, nil, primitive.CompressionNone, N, 4, time.Hour, nil)
+		cc, err := client.VerifNewClientConnection(a, ctx, nil, primitive.CompressionNone, N, 4, readTimeout, nil)
 		if err != nil {
 			return
 		}
@@ -500,7 +533,7 @@ func c09Wire(r *Run) {
 				q, _ := RParseQuery(f.Body)
 				id := f.H.Stream
 				wireLog = append(wireLog, fmt.Sprintf("recv %s id=%d", q, id))
-				if id < 1 || int(id) > N {
+				if (id < 1 || int(id) > N) && !strings.HasPrefix(q, "x") {
 					r.Violate(P, "wire", "id-out-of-range", "request %s arrived with stream id %d; managed ids must lie in 1..%d", q, id, N)
 				}
 				if other, dup := unanswered[id]; dup {
@@ -525,6 +558,7 @@ func c09Wire(r *Run) {
 		})
 		held := 0
 		heldTotal := 0
+		latePending := 0
 		r.Go("peer.answer", func() {
 			defer pwg.Done()
 			for {
@@ -575,8 +609,10 @@ func c09Wire(r *Run) {
 					r.Probes["held_back"]++
 					d := ms(200 + T.Draw("peer.holdms", 3000))
 					pwg.Add(1)
+					latePending++
 					r.Go("peer.late", func() {
 						defer pwg.Done()
+						defer func() { latePending-- }()
 						r.Sleep(d)
 						delete(unanswered, f.H.Stream)
 						wireLog = append(wireLog, fmt.Sprintf("late answer id=%d", f.H.Stream))
@@ -607,7 +643,11 @@ func c09Wire(r *Run) {
 				var mine []client.InFlightRequest
 				for j := 0; j < M; j++ {
 					senderState[i] = "Send"
-					req, err := cc.Send(queryFrame(v, client.ManagedStreamId, fmt.Sprintf("q%d.%d", i, j)))
+					sid, name := int16(client.ManagedStreamId), fmt.Sprintf("q%d.%d", i, j)
+					if mixed && T.Bool("mixed.explicit", 0.4) {
+						sid, name = int16(N+1+T.Draw("k.high", 3)), fmt.Sprintf("x%d.%d", i, j)
+					}
+					req, err := cc.Send(queryFrame(v, sid, name))
 					r.Yield("sender.sent")
 					senderState[i] = ""
 					if err != nil || req == nil {
@@ -621,7 +661,11 @@ func c09Wire(r *Run) {
 						f, err := cc.Receive(req)
 						r.Yield("sender.recv")
 						if f == nil || err != nil {
-							unansweredByPeer++
+							if timeoutMode {
+								timedOut++
+							} else {
+								unansweredByPeer++
+							}
 						}
 						senderState[i] = ""
 						mine = mine[:len(mine)-1]
@@ -633,7 +677,11 @@ func c09Wire(r *Run) {
 					f, err := cc.Receive(req)
 					r.Yield("sender.recv.rest")
 					if f == nil || err != nil {
-						unansweredByPeer++
+						if timeoutMode {
+							timedOut++
+						} else {
+							unansweredByPeer++
+						}
 					}
 				}
 				senderState[i] = "done"
@@ -698,6 +746,20 @@ func c09Wire(r *Run) {
 				return
 			}
 			accepted += 2 * N
+		}
+		if timeoutMode {
+			// requests that timed out are answered late, from tasks of their own: wait until the peer has
+			// answered everything and the answers have crossed the link
+			for k := 0; k < 400 && (latePending > 0 || len(unanswered) > 0); k++ {
+				r.Sleep(50 * time.Millisecond)
+			}
+			r.Sleep(200 * time.Millisecond)
+			r.Probes["wire_requests_timed_out"] += timedOut
+			if latePending > 0 || len(unanswered) > 0 {
+				r.Probes["wire_harness_unanswered"]++
+				done = true
+				return
+			}
 		}
 		// recycling: everything is answered now, so N new requests must be accepted, ids 1..N distinct
 		seen := map[int16]bool{}
